@@ -62,14 +62,17 @@ def input_assembly(
     scale=40,
     arbitrary_names=False,
     min_scaffolds=1,
+    gap_skip=1,  # a gap separates two contigs with probability (5-gap_skip)/5
 ):
     n_scaffolds = draw(st.integers(min_scaffolds, max_scaffolds))
     if shape is None:
-        shape = draw(st.sampled_from(["contigs", "contigs", "fasta"]))
+        shape = draw(st.sampled_from(["contigs", "contigs", "contigs", "fasta", "fasta", "recurated"]))
     T = max(1, int(t))
     pattern = draw(st.sampled_from(NEUTRAL_SCAFFOLD))
     scaffolds = []
     contig_n = 0
+    orig_names = ["scaffold_7", "scaffold_8", "ptg000001l"][: draw(st.integers(1, 3))] if shape == "recurated" else []
+    orig_pos = {}
     for si in range(n_scaffolds):
         if hap_prefixes and draw(st.booleans()):
             hp = draw(st.sampled_from(list(hap_prefixes)))
@@ -87,7 +90,7 @@ def input_assembly(
             if last_contig_min and ci == n_contigs - 1 and ln < last_contig_min:
                 ln = last_contig_min + draw(st.integers(0, 3 * T))
             if ci > 0:
-                has_gap = draw(st.integers(0, 4)) > 0
+                has_gap = draw(st.integers(0, 4)) >= gap_skip
                 if shape == "fasta":
                     has_gap = True  # runs of one record are always separated by a non-ACGT run
                 if has_gap:
@@ -99,6 +102,13 @@ def input_assembly(
             if shape == "fasta":
                 rows.append(["F", sname, pos, pos + ln - 1, 1])
                 pos += ln
+            elif shape == "recurated":
+                # output of an earlier curation round: few original names, disjoint intervals, mixed strands
+                oname = draw(st.sampled_from(orig_names))
+                opos = orig_pos.get(oname, 1) + draw(st.sampled_from([0, 0, 200]))
+                strand = 1 if strands == "fwd" else draw(st.sampled_from([1, -1]))
+                rows.append(["F", oname, opos, opos + ln - 1, strand])
+                orig_pos[oname] = opos + ln
             else:
                 contig_n += 1
                 start = draw(st.integers(1, 50))
@@ -227,8 +237,27 @@ def perturb_map(draw, map_plain, input_plain, t):
         si = draw(st.integers(0, len(out) - 1))
         rows = out[si][1]
         frag_idx = [i for i, r in enumerate(rows) if r[0] == "F"]
-        op = draw(st.sampled_from(["drop", "dup", "rev", "shift", "replace", "beyond", "tags", "arbitrary"]))
+        op = draw(st.sampled_from(["drop", "dup", "rev", "shift", "replace", "beyond", "tags", "arbitrary", "hole", "hole", "lap"]))
         ops.append(op)
+        if op in ("hole", "lap"):
+            # open a hole (or an overlap) of up to 2 texels at a cut between two pieces of one input scaffold
+            pairs = []
+            allrows = [r for _n, rws in out for r in rws if r[0] == "F"]
+            for x in allrows:
+                for y in allrows:
+                    if x is not y and x[1] == y[1] and y[2] == x[3] + 1:
+                        pairs.append((x, y))
+            if pairs:
+                x, y = pairs[draw(st.integers(0, len(pairs) - 1))]
+                d1 = draw(st.integers(0, 2 * T))
+                d2 = draw(st.integers(0, 2 * T))
+                if op == "hole":
+                    x[3] = max(x[2], x[3] - d1)
+                    y[2] = min(y[3], y[2] + d2)
+                else:
+                    x[3] = x[3] + d1
+                    y[2] = max(1, y[2] - d2)
+            continue
         if op in ("replace", "arbitrary") or not frag_idx:
             name = draw(st.sampled_from(names))
             L = lengths[name]
